@@ -21,9 +21,10 @@ def run_conc(ctx, procs, extra):
         try:
             r = subprocess.run(cmd, stdout=subprocess.PIPE, stderr=subprocess.PIPE, timeout=3000)
         except subprocess.TimeoutExpired:
-            return {"dir": d, "crash": "TIMEOUT: the conc harness did not finish"}
+            return {"dir": d, "crash": "TIMEOUT: the conc harness did not finish\n# re-run: %s" % " ".join(cmd)}
         if r.returncode != 0:
-            return {"dir": d, "crash": "exit %d: %s" % (r.returncode, r.stderr.decode(errors="replace")[-800:])}
+            sig = {-11: " (SIGSEGV)", -6: " (SIGABRT)", -7: " (SIGBUS)"}.get(r.returncode, "")
+            return {"dir": d, "crash": "exit %d%s: %s\n# re-run: %s" % (r.returncode, sig, r.stderr.decode(errors="replace")[-800:], " ".join(cmd))}
         rc, err = run_driver(os.path.join(d, "conc.ops"), os.path.join(d, "conc.model"))
         fails = []
         for l in read_lines(os.path.join(d, "conc.failures")):
@@ -378,8 +379,9 @@ def scan_stage(ctx, cov):
     ok, out = cargo_build(ctx, ["conc"])
     if not ok:
         return
-    outs = run_conc(ctx, 8, ["cases=0", "scans=%d" % (150 if ctx.tier == "quick" else 5000)])
+    outs = run_conc(ctx, 8, ["cases=0", "scans=%d" % (150 if ctx.tier == "quick" else 5000), "scanrace=%d" % (6 if ctx.tier == "quick" else 150)])
     lines = bad = moddiff = scans = 0
+    free = {}
     steps = {}
     for o in outs:
         if "crash" in o:
@@ -390,6 +392,8 @@ def scan_stage(ctx, cov):
                 steps[k] = steps.get(k, 0) + v
             if k == "scan case":
                 scans += v
+            if k.startswith("scanrace"):
+                free[k] = free.get(k, 0) + v
         for f in o["fails"]:
             if f["prop"] == "C14":
                 bad += 1
@@ -409,6 +413,7 @@ def scan_stage(ctx, cov):
                     violation(ctx, "correspondence: the real range_query and the Lean scan model disagree at `%s`: `%s` vs `%s`" % (op[:80], im[:80], mo[:80]),
                               "# model Feox.Conc.Range (theorems Feox.C14.concurrent_scan, absent_never_appears, stable_key_exactly_once)\n" + body, no_input=True, tag="scan")
     ctx.log("scan stage: %d scans, %d lines, %d oracle failures, %d model differences" % (scans, lines, bad, moddiff))
+    cov["free_running_scan_races"] = free
     cov["concurrent_scans"] = scans
     cov["concurrent_scan_lines"] = lines
     cov["concurrent_scan_step_histogram"] = steps
